@@ -708,8 +708,9 @@ def gen_place(rng, tier="quick"):
                 index=rng.choice(["default", "offset", "shuffled", "filtered", "duplicated"]), tlist=tlist, pden=pden,
                 kw_feature=not (feature == "object_id" and rng.random() < 0.65),       # G1: feature_to_color omitted -> 'object_id'
                 vshape_as=rng.choice(["tuple", "list"]),
-                # H3: a table read from a STAR file whose values are all whole numbers has int64 columns
-                intcols=shiftpos is None and rng.random() < 0.3)
+                # H3: a table read from a STAR file whose values are all whole numbers has int64 columns (also under shift_positions,
+                # which converts the row to float before adding the rotated offset)
+                intcols=rng.random() < 0.3)
     if shiftpos is not None:
         case["shiftpos"] = shiftpos
     if cinit is not None and rng.random() < 0.2:
